@@ -71,3 +71,86 @@ def intern_impl_after_absent_lookup(P):
             if callee_def(t) == "std::collections::HashMap::insert" and b.key not in impls:
                 return False, "records.insert outside the *_impl functions: " + b.key
     return True, "%d call(s) of the *_impl functions, each under a None lookup of the same key" % n
+
+
+# ---------------------------------------------------------------------------
+# E9 helper: error-chain obligations over a set of bodies
+# ---------------------------------------------------------------------------
+
+def error_chain(P, chk, bodies, rule, table_entries, used, error_names=None, select=None):
+    """every call producing Result<_, E> (E a tracked error type) in `bodies` is consumed by `?`,
+    returned, or matched with an Err arm that returns Err; anything else must be tabled."""
+    from analysis import errchain as E
+    names = error_names or E.ERROR_TYPES
+    rc = E.result_calls(P, bodies, names)
+    n = 0
+    seen = {}
+    for b, bb, t, e in rc:
+        if panics.term_external_expansion(t):
+            continue
+        if select and not select(b, bb, t, e):
+            continue
+        n += 1
+        uses = E.consumption(P, b, bb)
+        bad = [u for u in uses if u.kind not in E.GOOD]
+        cs = panics.short_callee(callee(t) or "?")
+        if not bad:
+            base = "%s|%s|%s" % (b.key, cs, "+".join(sorted(set(u.kind for u in uses))))
+            k = seen.get(base, 0) + 1
+            seen[base] = k
+            chk.ok(rule, base if k == 1 else "%s#%d" % (base, k), b.loc(bb), "error type " + e.rsplit("::", 1)[-1])
+            continue
+        for u in bad:
+            base = "%s|%s|%s:%s" % (b.key, cs, u.kind, u.detail)
+            k = seen.get(base, 0) + 1
+            seen[base] = k
+            key = base if k == 1 else "%s#%d" % (base, k)
+            ent = table_entries.get(key)
+            if ent is not None:
+                used.add(key)
+                chk.ok(rule, key, b.loc(u.bb), "table: " + ent["reason"])
+            else:
+                chk.fail(rule, key, b.loc(u.bb),
+                         "the %s of %s is not propagated: %s" % (e.rsplit("::", 1)[-1], cs, u.detail))
+    chk.add_sites(n)
+    return n
+
+
+def main_exit(P, chk, rule):
+    """main: the Err arm of cli.run(..) writes to stderr and reaches exit(non-zero) on all paths"""
+    b = P.body("okane::main")
+    chk.analysed(b)
+    runs = mir.call_sites(b, ["okane::cmd::Cli::run"])
+    if len(runs) != 1:
+        chk.anchor_missing("main: expected exactly one call of Cli::run, found %d" % len(runs))
+        return
+    bb, t = runs[0]
+    sw = t["target"]
+    ds = mir.describe_switch(b, sw)
+    if not ds or ds[0] != "variant":
+        chk.anchor_missing("main: result of Cli::run is not matched")
+        return
+    err_targets = [tb for tb, labs in ds[2].items() if "Err" in labs]
+    key = "okane::main|Err-arm-exits-nonzero"
+    if not err_targets or any("Ok" in ds[2][tb] for tb in err_targets):
+        chk.fail(rule, key, b.loc(sw), "the Err arm of cli.run(..) is not separated from Ok")
+        return
+    exits = mir.call_sites(b, ["std::process::exit"])
+    exit_blocks = [e[0] for e in exits]
+    ok = bool(exits)
+    detail = []
+    for ebb, et in exits:
+        c = et["args"][0].get("int")
+        if c is None or c == 0:
+            ok = False
+            detail.append("exit code is not a non-zero constant")
+    for tb in err_targets:
+        reach = b.reach_from(tb, without_blocks=tuple(exit_blocks))
+        if any(b.term(x)["k"] == "return" for x in reach):
+            ok = False
+            detail.append("a path from the Err arm returns from main without exit(..)")
+        ep = q.blocks_calling(b, ["std::io::_eprint"])
+        if not ep or not any(b.must_pass_block(e, x) for e in exit_blocks for x in ep):
+            ok = False
+            detail.append("no eprint on the way to exit")
+    chk.require(ok, rule, key, b.loc(sw), "; ".join(detail) or "no exit", "Err -> eprint -> exit(1) on all paths")
